@@ -45,7 +45,7 @@ vpv_cell!(#[kani::stub(eval_filter_expr, stub_eval_filter_expr)] #[kani::stub(co
 vpv_cell!(#[kani::stub(eval_filter_expr, stub_eval_filter_expr)] #[kani::stub(collect_emitted_event, stub_collect_emitted_event)] #[kani::stub(call_user_function, stub_call_user_function)] c09_eq_float_float, "C09/Eq/Float-Float", (a: f64, b: f64), { agree(0, Expr::Float(a), Expr::Float(b)) });
 vpv_cell!(#[kani::stub(eval_filter_expr, stub_eval_filter_expr)] #[kani::stub(collect_emitted_event, stub_collect_emitted_event)] #[kani::stub(call_user_function, stub_call_user_function)] #[kani::unwind(6)] c09_eq_str_str, "C09/Eq/Str-Str", (a: u8, b: u8), { agree(0, Expr::Str(ascii1(a)), Expr::Str(ascii1(b))) });
 vpv_cell!(#[kani::stub(eval_filter_expr, stub_eval_filter_expr)] #[kani::stub(collect_emitted_event, stub_collect_emitted_event)] #[kani::stub(call_user_function, stub_call_user_function)] c09_eq_bool_bool, "C09/Eq/Bool-Bool", (a: bool, b: bool), { agree(0, Expr::Bool(a), Expr::Bool(b)) });
-vpv_cell!(#[kani::stub(eval_filter_expr, stub_eval_filter_expr)] #[kani::stub(collect_emitted_event, stub_collect_emitted_event)] #[kani::stub(call_user_function, stub_call_user_function)] #[kani::unwind(6)] c09_eq_mismatched_kinds, "C09/Eq/operands of different kinds (13 kind pairs: Int/Float/Bool/Str/Null mixed)", (i: i64, f: f64, b: bool, c: u8), {
+vpv_cell!(#[kani::stub(eval_filter_expr, stub_eval_filter_expr)] #[kani::stub(collect_emitted_event, stub_collect_emitted_event)] #[kani::stub(call_user_function, stub_call_user_function)] #[kani::unwind(6)] c09_eq_mismatched_kinds, "C09/Eq/operands of different kinds (12 kind pairs: Int/Float/Bool/Str/Null mixed)", (i: i64, f: f64, b: bool, c: u8), {
     let mut ok = true;
     ok = ok && agree(0, Expr::Int(i), Expr::Str(ascii1(c)));   // Int-Str
     ok = ok && agree(0, Expr::Str(ascii1(c)), Expr::Int(i));   // Str-Int
@@ -53,7 +53,6 @@ vpv_cell!(#[kani::stub(eval_filter_expr, stub_eval_filter_expr)] #[kani::stub(co
     ok = ok && agree(0, Expr::Int(i), Expr::Bool(b));   // Int-Bool
     ok = ok && agree(0, Expr::Null, Expr::Int(i));   // Null-Int
     ok = ok && agree(0, Expr::Int(i), Expr::Null);   // Int-Null
-    ok = ok && agree(0, Expr::Null, Expr::Null);   // Null-Null
     ok = ok && agree(0, Expr::Float(f), Expr::Str(ascii1(c)));   // Float-Str
     ok = ok && agree(0, Expr::Str(ascii1(c)), Expr::Bool(b));   // Str-Bool
     ok = ok && agree(0, Expr::Float(f), Expr::Bool(b));   // Float-Bool
@@ -67,7 +66,7 @@ vpv_cell!(#[kani::stub(eval_filter_expr, stub_eval_filter_expr)] #[kani::stub(co
 vpv_cell!(#[kani::stub(eval_filter_expr, stub_eval_filter_expr)] #[kani::stub(collect_emitted_event, stub_collect_emitted_event)] #[kani::stub(call_user_function, stub_call_user_function)] c09_noteq_float_float, "C09/NotEq/Float-Float", (a: f64, b: f64), { agree(1, Expr::Float(a), Expr::Float(b)) });
 vpv_cell!(#[kani::stub(eval_filter_expr, stub_eval_filter_expr)] #[kani::stub(collect_emitted_event, stub_collect_emitted_event)] #[kani::stub(call_user_function, stub_call_user_function)] #[kani::unwind(6)] c09_noteq_str_str, "C09/NotEq/Str-Str", (a: u8, b: u8), { agree(1, Expr::Str(ascii1(a)), Expr::Str(ascii1(b))) });
 vpv_cell!(#[kani::stub(eval_filter_expr, stub_eval_filter_expr)] #[kani::stub(collect_emitted_event, stub_collect_emitted_event)] #[kani::stub(call_user_function, stub_call_user_function)] c09_noteq_bool_bool, "C09/NotEq/Bool-Bool", (a: bool, b: bool), { agree(1, Expr::Bool(a), Expr::Bool(b)) });
-vpv_cell!(#[kani::stub(eval_filter_expr, stub_eval_filter_expr)] #[kani::stub(collect_emitted_event, stub_collect_emitted_event)] #[kani::stub(call_user_function, stub_call_user_function)] #[kani::unwind(6)] c09_noteq_mismatched_kinds, "C09/NotEq/operands of different kinds (13 kind pairs: Int/Float/Bool/Str/Null mixed)", (i: i64, f: f64, b: bool, c: u8), {
+vpv_cell!(#[kani::stub(eval_filter_expr, stub_eval_filter_expr)] #[kani::stub(collect_emitted_event, stub_collect_emitted_event)] #[kani::stub(call_user_function, stub_call_user_function)] #[kani::unwind(6)] c09_noteq_mismatched_kinds, "C09/NotEq/operands of different kinds (12 kind pairs: Int/Float/Bool/Str/Null mixed)", (i: i64, f: f64, b: bool, c: u8), {
     let mut ok = true;
     ok = ok && agree(1, Expr::Int(i), Expr::Str(ascii1(c)));   // Int-Str
     ok = ok && agree(1, Expr::Str(ascii1(c)), Expr::Int(i));   // Str-Int
@@ -75,7 +74,6 @@ vpv_cell!(#[kani::stub(eval_filter_expr, stub_eval_filter_expr)] #[kani::stub(co
     ok = ok && agree(1, Expr::Int(i), Expr::Bool(b));   // Int-Bool
     ok = ok && agree(1, Expr::Null, Expr::Int(i));   // Null-Int
     ok = ok && agree(1, Expr::Int(i), Expr::Null);   // Int-Null
-    ok = ok && agree(1, Expr::Null, Expr::Null);   // Null-Null
     ok = ok && agree(1, Expr::Float(f), Expr::Str(ascii1(c)));   // Float-Str
     ok = ok && agree(1, Expr::Str(ascii1(c)), Expr::Bool(b));   // Str-Bool
     ok = ok && agree(1, Expr::Float(f), Expr::Bool(b));   // Float-Bool
@@ -89,7 +87,7 @@ vpv_cell!(#[kani::stub(eval_filter_expr, stub_eval_filter_expr)] #[kani::stub(co
 vpv_cell!(#[kani::stub(eval_filter_expr, stub_eval_filter_expr)] #[kani::stub(collect_emitted_event, stub_collect_emitted_event)] #[kani::stub(call_user_function, stub_call_user_function)] c09_lt_float_float, "C09/Lt/Float-Float", (a: f64, b: f64), { agree(2, Expr::Float(a), Expr::Float(b)) });
 vpv_cell!(#[kani::stub(eval_filter_expr, stub_eval_filter_expr)] #[kani::stub(collect_emitted_event, stub_collect_emitted_event)] #[kani::stub(call_user_function, stub_call_user_function)] #[kani::unwind(6)] c09_lt_str_str, "C09/Lt/Str-Str", (a: u8, b: u8), { agree(2, Expr::Str(ascii1(a)), Expr::Str(ascii1(b))) });
 vpv_cell!(#[kani::stub(eval_filter_expr, stub_eval_filter_expr)] #[kani::stub(collect_emitted_event, stub_collect_emitted_event)] #[kani::stub(call_user_function, stub_call_user_function)] c09_lt_bool_bool, "C09/Lt/Bool-Bool", (a: bool, b: bool), { agree(2, Expr::Bool(a), Expr::Bool(b)) });
-vpv_cell!(#[kani::stub(eval_filter_expr, stub_eval_filter_expr)] #[kani::stub(collect_emitted_event, stub_collect_emitted_event)] #[kani::stub(call_user_function, stub_call_user_function)] #[kani::unwind(6)] c09_lt_mismatched_kinds, "C09/Lt/operands of different kinds (13 kind pairs: Int/Float/Bool/Str/Null mixed)", (i: i64, f: f64, b: bool, c: u8), {
+vpv_cell!(#[kani::stub(eval_filter_expr, stub_eval_filter_expr)] #[kani::stub(collect_emitted_event, stub_collect_emitted_event)] #[kani::stub(call_user_function, stub_call_user_function)] #[kani::unwind(6)] c09_lt_mismatched_kinds, "C09/Lt/operands of different kinds (12 kind pairs: Int/Float/Bool/Str/Null mixed)", (i: i64, f: f64, b: bool, c: u8), {
     let mut ok = true;
     ok = ok && agree(2, Expr::Int(i), Expr::Str(ascii1(c)));   // Int-Str
     ok = ok && agree(2, Expr::Str(ascii1(c)), Expr::Int(i));   // Str-Int
@@ -97,7 +95,6 @@ vpv_cell!(#[kani::stub(eval_filter_expr, stub_eval_filter_expr)] #[kani::stub(co
     ok = ok && agree(2, Expr::Int(i), Expr::Bool(b));   // Int-Bool
     ok = ok && agree(2, Expr::Null, Expr::Int(i));   // Null-Int
     ok = ok && agree(2, Expr::Int(i), Expr::Null);   // Int-Null
-    ok = ok && agree(2, Expr::Null, Expr::Null);   // Null-Null
     ok = ok && agree(2, Expr::Float(f), Expr::Str(ascii1(c)));   // Float-Str
     ok = ok && agree(2, Expr::Str(ascii1(c)), Expr::Bool(b));   // Str-Bool
     ok = ok && agree(2, Expr::Float(f), Expr::Bool(b));   // Float-Bool
@@ -111,7 +108,7 @@ vpv_cell!(#[kani::stub(eval_filter_expr, stub_eval_filter_expr)] #[kani::stub(co
 vpv_cell!(#[kani::stub(eval_filter_expr, stub_eval_filter_expr)] #[kani::stub(collect_emitted_event, stub_collect_emitted_event)] #[kani::stub(call_user_function, stub_call_user_function)] c09_le_float_float, "C09/Le/Float-Float", (a: f64, b: f64), { agree(3, Expr::Float(a), Expr::Float(b)) });
 vpv_cell!(#[kani::stub(eval_filter_expr, stub_eval_filter_expr)] #[kani::stub(collect_emitted_event, stub_collect_emitted_event)] #[kani::stub(call_user_function, stub_call_user_function)] #[kani::unwind(6)] c09_le_str_str, "C09/Le/Str-Str", (a: u8, b: u8), { agree(3, Expr::Str(ascii1(a)), Expr::Str(ascii1(b))) });
 vpv_cell!(#[kani::stub(eval_filter_expr, stub_eval_filter_expr)] #[kani::stub(collect_emitted_event, stub_collect_emitted_event)] #[kani::stub(call_user_function, stub_call_user_function)] c09_le_bool_bool, "C09/Le/Bool-Bool", (a: bool, b: bool), { agree(3, Expr::Bool(a), Expr::Bool(b)) });
-vpv_cell!(#[kani::stub(eval_filter_expr, stub_eval_filter_expr)] #[kani::stub(collect_emitted_event, stub_collect_emitted_event)] #[kani::stub(call_user_function, stub_call_user_function)] #[kani::unwind(6)] c09_le_mismatched_kinds, "C09/Le/operands of different kinds (13 kind pairs: Int/Float/Bool/Str/Null mixed)", (i: i64, f: f64, b: bool, c: u8), {
+vpv_cell!(#[kani::stub(eval_filter_expr, stub_eval_filter_expr)] #[kani::stub(collect_emitted_event, stub_collect_emitted_event)] #[kani::stub(call_user_function, stub_call_user_function)] #[kani::unwind(6)] c09_le_mismatched_kinds, "C09/Le/operands of different kinds (12 kind pairs: Int/Float/Bool/Str/Null mixed)", (i: i64, f: f64, b: bool, c: u8), {
     let mut ok = true;
     ok = ok && agree(3, Expr::Int(i), Expr::Str(ascii1(c)));   // Int-Str
     ok = ok && agree(3, Expr::Str(ascii1(c)), Expr::Int(i));   // Str-Int
@@ -119,7 +116,6 @@ vpv_cell!(#[kani::stub(eval_filter_expr, stub_eval_filter_expr)] #[kani::stub(co
     ok = ok && agree(3, Expr::Int(i), Expr::Bool(b));   // Int-Bool
     ok = ok && agree(3, Expr::Null, Expr::Int(i));   // Null-Int
     ok = ok && agree(3, Expr::Int(i), Expr::Null);   // Int-Null
-    ok = ok && agree(3, Expr::Null, Expr::Null);   // Null-Null
     ok = ok && agree(3, Expr::Float(f), Expr::Str(ascii1(c)));   // Float-Str
     ok = ok && agree(3, Expr::Str(ascii1(c)), Expr::Bool(b));   // Str-Bool
     ok = ok && agree(3, Expr::Float(f), Expr::Bool(b));   // Float-Bool
@@ -133,7 +129,7 @@ vpv_cell!(#[kani::stub(eval_filter_expr, stub_eval_filter_expr)] #[kani::stub(co
 vpv_cell!(#[kani::stub(eval_filter_expr, stub_eval_filter_expr)] #[kani::stub(collect_emitted_event, stub_collect_emitted_event)] #[kani::stub(call_user_function, stub_call_user_function)] c09_gt_float_float, "C09/Gt/Float-Float", (a: f64, b: f64), { agree(4, Expr::Float(a), Expr::Float(b)) });
 vpv_cell!(#[kani::stub(eval_filter_expr, stub_eval_filter_expr)] #[kani::stub(collect_emitted_event, stub_collect_emitted_event)] #[kani::stub(call_user_function, stub_call_user_function)] #[kani::unwind(6)] c09_gt_str_str, "C09/Gt/Str-Str", (a: u8, b: u8), { agree(4, Expr::Str(ascii1(a)), Expr::Str(ascii1(b))) });
 vpv_cell!(#[kani::stub(eval_filter_expr, stub_eval_filter_expr)] #[kani::stub(collect_emitted_event, stub_collect_emitted_event)] #[kani::stub(call_user_function, stub_call_user_function)] c09_gt_bool_bool, "C09/Gt/Bool-Bool", (a: bool, b: bool), { agree(4, Expr::Bool(a), Expr::Bool(b)) });
-vpv_cell!(#[kani::stub(eval_filter_expr, stub_eval_filter_expr)] #[kani::stub(collect_emitted_event, stub_collect_emitted_event)] #[kani::stub(call_user_function, stub_call_user_function)] #[kani::unwind(6)] c09_gt_mismatched_kinds, "C09/Gt/operands of different kinds (13 kind pairs: Int/Float/Bool/Str/Null mixed)", (i: i64, f: f64, b: bool, c: u8), {
+vpv_cell!(#[kani::stub(eval_filter_expr, stub_eval_filter_expr)] #[kani::stub(collect_emitted_event, stub_collect_emitted_event)] #[kani::stub(call_user_function, stub_call_user_function)] #[kani::unwind(6)] c09_gt_mismatched_kinds, "C09/Gt/operands of different kinds (12 kind pairs: Int/Float/Bool/Str/Null mixed)", (i: i64, f: f64, b: bool, c: u8), {
     let mut ok = true;
     ok = ok && agree(4, Expr::Int(i), Expr::Str(ascii1(c)));   // Int-Str
     ok = ok && agree(4, Expr::Str(ascii1(c)), Expr::Int(i));   // Str-Int
@@ -141,7 +137,6 @@ vpv_cell!(#[kani::stub(eval_filter_expr, stub_eval_filter_expr)] #[kani::stub(co
     ok = ok && agree(4, Expr::Int(i), Expr::Bool(b));   // Int-Bool
     ok = ok && agree(4, Expr::Null, Expr::Int(i));   // Null-Int
     ok = ok && agree(4, Expr::Int(i), Expr::Null);   // Int-Null
-    ok = ok && agree(4, Expr::Null, Expr::Null);   // Null-Null
     ok = ok && agree(4, Expr::Float(f), Expr::Str(ascii1(c)));   // Float-Str
     ok = ok && agree(4, Expr::Str(ascii1(c)), Expr::Bool(b));   // Str-Bool
     ok = ok && agree(4, Expr::Float(f), Expr::Bool(b));   // Float-Bool
@@ -155,7 +150,7 @@ vpv_cell!(#[kani::stub(eval_filter_expr, stub_eval_filter_expr)] #[kani::stub(co
 vpv_cell!(#[kani::stub(eval_filter_expr, stub_eval_filter_expr)] #[kani::stub(collect_emitted_event, stub_collect_emitted_event)] #[kani::stub(call_user_function, stub_call_user_function)] c09_ge_float_float, "C09/Ge/Float-Float", (a: f64, b: f64), { agree(5, Expr::Float(a), Expr::Float(b)) });
 vpv_cell!(#[kani::stub(eval_filter_expr, stub_eval_filter_expr)] #[kani::stub(collect_emitted_event, stub_collect_emitted_event)] #[kani::stub(call_user_function, stub_call_user_function)] #[kani::unwind(6)] c09_ge_str_str, "C09/Ge/Str-Str", (a: u8, b: u8), { agree(5, Expr::Str(ascii1(a)), Expr::Str(ascii1(b))) });
 vpv_cell!(#[kani::stub(eval_filter_expr, stub_eval_filter_expr)] #[kani::stub(collect_emitted_event, stub_collect_emitted_event)] #[kani::stub(call_user_function, stub_call_user_function)] c09_ge_bool_bool, "C09/Ge/Bool-Bool", (a: bool, b: bool), { agree(5, Expr::Bool(a), Expr::Bool(b)) });
-vpv_cell!(#[kani::stub(eval_filter_expr, stub_eval_filter_expr)] #[kani::stub(collect_emitted_event, stub_collect_emitted_event)] #[kani::stub(call_user_function, stub_call_user_function)] #[kani::unwind(6)] c09_ge_mismatched_kinds, "C09/Ge/operands of different kinds (13 kind pairs: Int/Float/Bool/Str/Null mixed)", (i: i64, f: f64, b: bool, c: u8), {
+vpv_cell!(#[kani::stub(eval_filter_expr, stub_eval_filter_expr)] #[kani::stub(collect_emitted_event, stub_collect_emitted_event)] #[kani::stub(call_user_function, stub_call_user_function)] #[kani::unwind(6)] c09_ge_mismatched_kinds, "C09/Ge/operands of different kinds (12 kind pairs: Int/Float/Bool/Str/Null mixed)", (i: i64, f: f64, b: bool, c: u8), {
     let mut ok = true;
     ok = ok && agree(5, Expr::Int(i), Expr::Str(ascii1(c)));   // Int-Str
     ok = ok && agree(5, Expr::Str(ascii1(c)), Expr::Int(i));   // Str-Int
@@ -163,7 +158,6 @@ vpv_cell!(#[kani::stub(eval_filter_expr, stub_eval_filter_expr)] #[kani::stub(co
     ok = ok && agree(5, Expr::Int(i), Expr::Bool(b));   // Int-Bool
     ok = ok && agree(5, Expr::Null, Expr::Int(i));   // Null-Int
     ok = ok && agree(5, Expr::Int(i), Expr::Null);   // Int-Null
-    ok = ok && agree(5, Expr::Null, Expr::Null);   // Null-Null
     ok = ok && agree(5, Expr::Float(f), Expr::Str(ascii1(c)));   // Float-Str
     ok = ok && agree(5, Expr::Str(ascii1(c)), Expr::Bool(b));   // Str-Bool
     ok = ok && agree(5, Expr::Float(f), Expr::Bool(b));   // Float-Bool
@@ -273,4 +267,10 @@ vpv_cell!(#[kani::unwind(6)] c09_pred_literal_left_ge, "C09/expr_to_sase_predica
         _ => false };
     std::mem::forget(p); std::mem::forget(e);
     ok });
-vpv_replay_table!(c09_pred_literal_left_eq, c09_pred_literal_left_noteq, c09_pred_literal_left_lt, c09_pred_literal_left_le, c09_pred_literal_left_gt, c09_pred_literal_left_ge, c09_eq_int_int, c09_eq_int_float, c09_eq_float_int, c09_eq_float_float, c09_eq_str_str, c09_eq_bool_bool, c09_eq_mismatched_kinds, c09_noteq_int_int, c09_noteq_int_float, c09_noteq_float_int, c09_noteq_float_float, c09_noteq_str_str, c09_noteq_bool_bool, c09_noteq_mismatched_kinds, c09_lt_int_int, c09_lt_int_float, c09_lt_float_int, c09_lt_float_float, c09_lt_str_str, c09_lt_bool_bool, c09_lt_mismatched_kinds, c09_le_int_int, c09_le_int_float, c09_le_float_int, c09_le_float_float, c09_le_str_str, c09_le_bool_bool, c09_le_mismatched_kinds, c09_gt_int_int, c09_gt_int_float, c09_gt_float_int, c09_gt_float_float, c09_gt_str_str, c09_gt_bool_bool, c09_gt_mismatched_kinds, c09_ge_int_int, c09_ge_int_float, c09_ge_float_int, c09_ge_float_float, c09_ge_str_str, c09_ge_bool_bool, c09_ge_mismatched_kinds, c09_pred_eq, c09_pred_noteq, c09_pred_lt, c09_pred_le, c09_pred_gt, c09_pred_ge);
+vpv_cell!(#[kani::stub(eval_filter_expr, stub_eval_filter_expr)] #[kani::stub(collect_emitted_event, stub_collect_emitted_event)] #[kani::stub(call_user_function, stub_call_user_function)] c09_eq_null_null, "C09/Eq/Null-Null", (), { agree(0, Expr::Null, Expr::Null) });
+vpv_cell!(#[kani::stub(eval_filter_expr, stub_eval_filter_expr)] #[kani::stub(collect_emitted_event, stub_collect_emitted_event)] #[kani::stub(call_user_function, stub_call_user_function)] c09_noteq_null_null, "C09/NotEq/Null-Null", (), { agree(1, Expr::Null, Expr::Null) });
+vpv_cell!(#[kani::stub(eval_filter_expr, stub_eval_filter_expr)] #[kani::stub(collect_emitted_event, stub_collect_emitted_event)] #[kani::stub(call_user_function, stub_call_user_function)] c09_lt_null_null, "C09/Lt/Null-Null", (), { agree(2, Expr::Null, Expr::Null) });
+vpv_cell!(#[kani::stub(eval_filter_expr, stub_eval_filter_expr)] #[kani::stub(collect_emitted_event, stub_collect_emitted_event)] #[kani::stub(call_user_function, stub_call_user_function)] c09_le_null_null, "C09/Le/Null-Null", (), { agree(3, Expr::Null, Expr::Null) });
+vpv_cell!(#[kani::stub(eval_filter_expr, stub_eval_filter_expr)] #[kani::stub(collect_emitted_event, stub_collect_emitted_event)] #[kani::stub(call_user_function, stub_call_user_function)] c09_gt_null_null, "C09/Gt/Null-Null", (), { agree(4, Expr::Null, Expr::Null) });
+vpv_cell!(#[kani::stub(eval_filter_expr, stub_eval_filter_expr)] #[kani::stub(collect_emitted_event, stub_collect_emitted_event)] #[kani::stub(call_user_function, stub_call_user_function)] c09_ge_null_null, "C09/Ge/Null-Null", (), { agree(5, Expr::Null, Expr::Null) });
+vpv_replay_table!(c09_eq_null_null, c09_noteq_null_null, c09_lt_null_null, c09_le_null_null, c09_gt_null_null, c09_ge_null_null, c09_pred_literal_left_eq, c09_pred_literal_left_noteq, c09_pred_literal_left_lt, c09_pred_literal_left_le, c09_pred_literal_left_gt, c09_pred_literal_left_ge, c09_eq_int_int, c09_eq_int_float, c09_eq_float_int, c09_eq_float_float, c09_eq_str_str, c09_eq_bool_bool, c09_eq_mismatched_kinds, c09_noteq_int_int, c09_noteq_int_float, c09_noteq_float_int, c09_noteq_float_float, c09_noteq_str_str, c09_noteq_bool_bool, c09_noteq_mismatched_kinds, c09_lt_int_int, c09_lt_int_float, c09_lt_float_int, c09_lt_float_float, c09_lt_str_str, c09_lt_bool_bool, c09_lt_mismatched_kinds, c09_le_int_int, c09_le_int_float, c09_le_float_int, c09_le_float_float, c09_le_str_str, c09_le_bool_bool, c09_le_mismatched_kinds, c09_gt_int_int, c09_gt_int_float, c09_gt_float_int, c09_gt_float_float, c09_gt_str_str, c09_gt_bool_bool, c09_gt_mismatched_kinds, c09_ge_int_int, c09_ge_int_float, c09_ge_float_int, c09_ge_float_float, c09_ge_str_str, c09_ge_bool_bool, c09_ge_mismatched_kinds, c09_pred_eq, c09_pred_noteq, c09_pred_lt, c09_pred_le, c09_pred_gt, c09_pred_ge);
